@@ -482,8 +482,8 @@ impl Symbol {
                         } else if let Some(nt_type) = user_type_resolver(n) {
                             nt_type
                         } else {
-                            // No alias found, use the %nt_type to skip the type later
-                            "%nt_type".to_string()
+                            // No alias found, print the user type as it was given
+                            user_type.to_string()
                         };
                     if alias != "%nt_type" && alias != "%t_type" {
                         // Don't print user type if it is the globally defined type
